@@ -18,17 +18,18 @@ import (
 // Job tells a worker what to do. Either Plan (replay / shrink candidate) or a range of
 // run indices to generate from the seed.
 type Job struct {
-	Property string     `json:"property"`
-	Seed     uint64     `json:"seed"`
-	Tier     string     `json:"tier"`
-	From     int        `json:"from"`
-	To       int        `json:"to"`
-	Stride   int        `json:"stride"`
-	PlanFile string     `json:"plan_file,omitempty"`
-	Out      string     `json:"out"`     // JSONL results
-	Current  string     `json:"current"` // file holding the plan being executed (crash attribution)
-	Deadline int64      `json:"deadline_unix,omitempty"`
-	DumpHist bool       `json:"dump_hist,omitempty"`
+	Property string `json:"property"`
+	Seed     uint64 `json:"seed"`
+	Tier     string `json:"tier"`
+	From     int    `json:"from"`
+	To       int    `json:"to"`
+	Stride   int    `json:"stride"`
+	PlanFile string `json:"plan_file,omitempty"`
+	Out      string `json:"out"`     // JSONL results
+	Current  string `json:"current"` // file holding the plan being executed (crash attribution)
+	Deadline int64  `json:"deadline_unix,omitempty"`
+	Build    string `json:"build,omitempty"` // execute only plans for this build variant
+	DumpHist bool   `json:"dump_hist,omitempty"`
 }
 
 // RunRecord is one line of the results file.
@@ -144,11 +145,21 @@ func TestWorker(t *testing.T) {
 		if p == nil {
 			t.Fatalf("no generator for %s", job.Property)
 		}
+		if job.Build != "" && buildOf(p) != job.Build {
+			continue
+		}
 		exec(p, i < job.From+3*stride)
 	}
 	if job.Current != "" {
 		os.Remove(job.Current)
 	}
+}
+
+func buildOf(p *plan.Plan) string {
+	if p.Build == "" {
+		return "plain"
+	}
+	return p.Build
 }
 
 // summarize renders a plan compactly for the evidence file's samples.
